@@ -21,6 +21,7 @@ ASSUMPTIONS = [
     "extra blocks are non-empty and at most 255 bytes",
 ]
 TIMEOUT = {"quick": 900, "thorough": 4 * 3600}
+OPTIMIZED_SHARDS = ("rand03",)  # these shards also run under python -O
 NSH = 16
 
 
